@@ -7,10 +7,15 @@ use std::time::{Duration, Instant};
 
 #[derive(Default)]
 struct Capture { got: Mutex<Vec<(String, Vec<u8>, u16)>> }
+/// what every sink does when it is handed a notification (sequential cases only): `R:<b>` makes
+/// it remove peer b from the registry, from inside the broadcast that is delivering to it
+type OnNotify = Box<dyn Fn() + Send>;
+static ON_NOTIFY: Mutex<Option<OnNotify>> = Mutex::new(None);
 impl PeerSink for Capture {
     fn send_notify(&self, method: &str, body: NotifyBody) -> Result<(), PeerSendError> {
         let f = body.body_format() as u16;
         self.got.lock().unwrap().push((method.to_string(), body.as_bytes().to_vec(), f));
+        if let Some(cb) = ON_NOTIFY.lock().unwrap().as_ref() { cb(); }
         Ok(())
     }
     fn is_connected(&self) -> bool { true }
@@ -200,15 +205,27 @@ fn run_case(line: &str) -> String {
                 "I" => { let id = p(t[1]); reg.insert(PeerHandle::new(PeerId(id), sink_of(id))); "u".to_string() }
                 "X" => { let id = p(t[1]); format!("b{}", reg.remove(PeerId(id)).is_some() as u8) }
                 "L" => { format!("b{}", reg.alias(PeerId(p(t[1])), key(p(t[2]))) as u8) }
-                "B" => {
+                "B" | "R" => {
                     bcount += 1;
                     for s in &sinks { s.got.lock().unwrap().clear(); }
-                    let path = format!("/bc/{bcount}"); let body = format!("payload-{bcount}").into_bytes();
-                    let (fmt, res) = match bcount % 3 {
+                    let path = format!("/bc/{bcount}"); let mut body = format!("payload-{bcount}").into_bytes();
+                    // R:<b>: every sink that is handed the notification removes peer b.  The peers
+                    // addressed are those present at the moment of the call: b included.
+                    let removed = Arc::new(std::sync::atomic::AtomicBool::new(false));
+                    let before = if t[0] == "R" {
+                        let (reg2, rm2, b) = (reg.clone(), removed.clone(), p(t[1]));
+                        *ON_NOTIFY.lock().unwrap() = Some(Box::new(move || { if reg2.remove(PeerId(b)).is_some() { rm2.store(true, std::sync::atomic::Ordering::SeqCst); } }));
+                        Some(observe(&reg, "?"))
+                    } else { None };
+                    let (fmt, res) = match bcount % 5 {
                         0 => (BodyFormat::Utf8 as u16, reg.broadcast_notify_utf8(&path, std::str::from_utf8(&body).unwrap())),
                         1 => (BodyFormat::RawBinary as u16, reg.broadcast_notify_raw(&path, BodyFormat::RawBinary, &body)),
+                        // raw bytes go out verbatim whatever the tag says: not valid UTF-8 under the Utf8 tag, not JSON under the Json tag
+                        2 => { body.extend_from_slice(&[0xff, 0xfe, 0x80, b'x', 0xc3]); (BodyFormat::Utf8 as u16, reg.broadcast_notify_raw(&path, BodyFormat::Utf8, &body)) }
+                        3 => { body.extend_from_slice(&[0x00, 0xff, b'{']); (BodyFormat::Json as u16, reg.broadcast_notify_raw(&path, BodyFormat::Json, &body)) }
                         _ => (BodyFormat::Json as u16, reg.broadcast_notify_raw(&path, BodyFormat::Json, &body)),
                     };
+                    *ON_NOTIFY.lock().unwrap() = None;
                     let mut results: Vec<u64> = res.iter().filter(|(_, r)| r.is_ok()).map(|(k, _)| k.0).collect(); results.sort();
                     let mut delivered = Vec::new(); let mut bad = Vec::new();
                     for (i, s) in sinks.iter().enumerate() {
@@ -217,8 +234,16 @@ fn run_case(line: &str) -> String {
                         else if !g.is_empty() { bad.push(ids[i]); }
                     }
                     delivered.sort();
-                    if bad.is_empty() && delivered == results && res.len() == results.len() { format!("ids{}", list(&delivered)) }
-                    else { format!("idsBAD[delivered={};results={};bad={}]", list(&delivered), list(&results), list(&bad)) }
+                    let out = if bad.is_empty() && delivered == results && res.len() == results.len() { format!("ids{}", list(&delivered)) }
+                    else { format!("idsBAD[delivered={};results={};bad={}]", list(&delivered), list(&results), list(&bad)) };
+                    if let Some(b4) = before {
+                        // two observations, as the model sees it: the broadcast over the state at the
+                        // call, then the removal
+                        outs.push(b4.replacen('?', &out, 1));
+                        outs.push(observe(&reg, &format!("b{}", removed.load(std::sync::atomic::Ordering::SeqCst) as u8)));
+                        continue;
+                    }
+                    out
                 }
                 _ => panic!("bad op"),
             };
@@ -266,6 +291,20 @@ fn gen_cases(seed: u64, thorough: bool) -> Vec<String> {
             }
         }
     }
+    // a broadcast whose sinks remove a peer while it is being delivered, after every history of
+    // length <= 2 (quick) / 3 (thorough) and after the directed prefix
+    for len in 0..=dk {
+        for idx in 0..n.pow(len as u32) {
+            let mut k = idx; let mut pre = Vec::new();
+            for _ in 0..len { pre.push(alpha[k % n].clone()); k /= n; }
+            for b in 0..3 {
+                let mut ops = pre.clone(); ops.push(format!("R:{b}")); ops.push("B".into());
+                cases.push(format!("ids=0.1.2 keys=0.1.2 ops={}", ops.join(";")));
+                let mut ops = vec![prefix.to_string()]; ops.extend(pre.iter().cloned()); ops.push(format!("R:{b}")); ops.push("B".into());
+                cases.push(format!("ids=0.1.2 keys=0.1.2 ops={}", ops.join(";")));
+            }
+        }
+    }
     let mut rng = Rng::new(seed);
     let nrand = if thorough { 20000 } else { 2000 };
     for _ in 0..nrand {
@@ -276,7 +315,7 @@ fn gen_cases(seed: u64, thorough: bool) -> Vec<String> {
             match rng.below(10) {
                 0 | 1 => ops.push(format!("I:{}", h(rng.below(ni)))),
                 2 | 3 => ops.push(format!("X:{}", h(rng.below(ni)))),
-                4 => { if rng.chance(1, 2) { ops.push("B".into()) } else {
+                4 => { if rng.chance(1, 2) { ops.push("B".into()) } else if rng.chance(1, 4) { ops.push(format!("R:{}", h(rng.below(ni)))) } else {
                     let inner = match rng.below(3) { 0 => format!("X:{}", h(rng.below(ni))), 1 => format!("I:{}", h(rng.below(ni))), _ => format!("L:{}:{}", h(rng.below(ni)), h(rng.below(nk))) };
                     ops.push(format!("K:{}:{}:{}", h(rng.below(ni)), h(rng.below(nk)), inner)); } }
                 _ => ops.push(format!("L:{}:{}", h(rng.below(ni)), h(rng.below(nk)))),
